@@ -93,6 +93,8 @@ type c10Env struct {
 	st    store.Store
 	close func()
 	def   interface{}
+
+	lastAnnounced bool // set by applyEvents: a create event arrived while the client did not hold the resource
 }
 
 func c10Project(v interface{}) interface{} {
@@ -242,6 +244,29 @@ func (e *c10Env) mutate(storeID string, before, after interface{}) error {
 	}
 }
 
+// mutateMany applies a chain of mutations inside one write transaction.
+func (e *c10Env) mutateMany(storeID string, before interface{}, afters []interface{}) error {
+	wt := e.st.Write(storeID)
+	defer wt.Close()
+	for _, after := range afters {
+		var err error
+		switch {
+		case before == nil && after == nil:
+		case before == nil:
+			err = wt.Create(after)
+		case after == nil:
+			err = wt.Delete()
+		default:
+			err = wt.Update(after)
+		}
+		if err != nil {
+			return err
+		}
+		before = after
+	}
+	return nil
+}
+
 func isDeleteAction(v interface{}) bool {
 	m, ok := v.(map[string]interface{})
 	return ok && len(m) == 1 && m["action"] == "delete"
@@ -251,6 +276,11 @@ func isDeleteAction(v interface{}) bool {
 func (e *c10Env) applyEvents(log []vconn.Msg, rid string, cache interface{}, found bool, desc map[string]interface{}) (interface{}, bool, []string) {
 	var evs []string
 	prefix := "event." + rid + "."
+	// A client holds the resource until a delete event; while it does not hold
+	// it, events are ignored, and a create event tells it that a fetch is
+	// worthwhile (announced).
+	dropped, announced := false, false
+	defer func() { e.lastAnnounced = announced }()
 	for _, m := range log {
 		if !strings.HasPrefix(m.Subject, prefix) {
 			continue
@@ -263,7 +293,18 @@ func (e *c10Env) applyEvents(log []vconn.Msg, rid string, cache interface{}, fou
 			dec.UseNumber()
 			dec.Decode(&data)
 		}
+		if !found && (dropped || announced) && (ev == "change" || ev == "add" || ev == "remove") {
+			continue
+		}
 		switch ev {
+		case "delete":
+			if found {
+				found, dropped, announced = false, true, false
+			}
+		case "create":
+			if !found {
+				announced = true
+			}
 		case "change":
 			model, ok := cache.(map[string]interface{})
 			if !ok || !found {
@@ -321,8 +362,6 @@ func (e *c10Env) applyEvents(log []vconn.Msg, rid string, cache interface{}, fou
 			nl := append([]interface{}{}, list[:idx]...)
 			nl = append(nl, list[idx+1:]...)
 			cache = nl
-		case "create", "delete":
-			// handled by the caller (the client refetches / drops the resource)
 		}
 	}
 	return cache, found, evs
@@ -497,29 +536,48 @@ func (e *c10Env) history(r *rand.Rand, name string) bool {
 	}
 	var steps []string
 	for s := 0; s < 12; s++ {
-		var next interface{}
-		switch {
-		case cur == nil:
-			next = c10RandValue(r, e.cfg, false)
-		case r.Intn(5) == 0:
-			next = nil
-		case r.Intn(2) == 0:
-			next = c10Perturb(r, cur, e.cfg)
-		default:
-			next = c10RandValue(r, e.cfg, false)
+		// one transaction holds one mutation, or (every third) a chain of 2-3
+		nops := 1
+		if r.Intn(3) == 0 {
+			nops = 2 + r.Intn(2)
+		}
+		var nexts []interface{}
+		chain := canon(cur)
+		prev := cur
+		for k := 0; k < nops; k++ {
+			var next interface{}
+			switch {
+			case prev == nil:
+				next = c10RandValue(r, e.cfg, false)
+			case r.Intn(5) == 0:
+				next = nil
+			case r.Intn(2) == 0:
+				next = c10Perturb(r, prev, e.cfg)
+			default:
+				next = c10RandValue(r, e.cfg, false)
+			}
+			nexts = append(nexts, next)
+			chain += " -> " + canon(next)
+			prev = next
 		}
 		pos := e.rig.C.Len()
-		if err := e.mutate(storeID, cur, next); err != nil {
+		if err := e.mutateMany(storeID, cur, nexts); err != nil {
 			c.Inconclusive("mutation failed: " + err.Error())
 			return false
 		}
 		c.Eval(1)
-		steps = append(steps, canon(cur)+" -> "+canon(next))
-		cur = next
+		if nops > 1 {
+			c.Obs("multi_mutation_transactions", 1)
+			chain = "txn{" + chain + "}"
+		}
+		steps = append(steps, chain)
+		cur = prev
 		desc := map[string]interface{}{"config": e.cfg, "rid": rid, "steps": steps}
 		log := e.rig.C.Since(pos)
 		var evs []string
-		cache, _, evs = e.applyEvents(log, rid, cache, found, desc)
+		var held bool
+		cache, held, evs = e.applyEvents(log, rid, cache, found, desc)
+		announced := e.lastAnnounced
 		fresh, ffound, ok := e.get(rid)
 		if !ok {
 			return false
@@ -533,18 +591,21 @@ func (e *c10Env) history(r *rand.Rand, name string) bool {
 			}
 			return false
 		}
+		_ = hasEv
 		switch {
-		case found != ffound:
-			want := "create"
-			if found {
-				want = "delete"
-			}
-			if !hasEv(want) {
+		case held && !ffound:
+			desc["events"] = evs
+			c.Violation("C10/deletion-not-announced:"+sigCfg, fmt.Sprintf("history step %d: %s: deletion of %s not announced to the client holding it (events %v)", s, chain, rid, evs), desc)
+			cache, found = nil, false
+		case !held && ffound:
+			if !announced {
 				desc["events"] = evs
-				c.Violation("C10/"+map[string]string{"create": "creation", "delete": "deletion"}[want]+"-not-announced:"+sigCfg, fmt.Sprintf("history step %d: %s of %s not announced (events %v)", s, want, rid, evs), desc)
+				c.Violation("C10/creation-not-announced:"+sigCfg, fmt.Sprintf("history step %d: %s: %s exists but its creation was not announced after the client lost it (events %v)", s, chain, rid, evs), desc)
 			}
-			cache, found = fresh, ffound // the client refetches / drops
-		case found && canon(cache) != canon(fresh):
+			cache, found = fresh, true // the client fetches
+		case !held:
+			cache, found = nil, false
+		case canon(cache) != canon(fresh):
 			desc["events"], desc["client"], desc["fresh"] = evs, cache, fresh
 			c.Violation("C10/stale-client:"+sigCfg, fmt.Sprintf("history step %d: client of %s holds %s, fresh get returns %s (events %v)", s, rid, canon(cache), canon(fresh), evs), desc)
 			cache = fresh
